@@ -50,7 +50,6 @@ structure St where
   attempts : List Host := []                -- frames that reached a backend, in order
   prepares : List Host := []                -- re-prepare frames that reached a backend
   reply : Option Reply := none
-  diverged : Bool := false                  -- executeInternal(next=false) spinning on a failing Send
   deriving Repr, DecidableEq
 
 def decide (idem : Bool) (rc : Nat) : Outcome → Decision
@@ -93,18 +92,21 @@ def react (idem : Bool) (rc : Nat) : Outcome → Reaction
     | .returnError => .finish .forwarded false
 
 inductive Pick where
-  | noHost | spin | host (h : Host) (plan : List Host)
+  | noHost | host (h : Host) (plan : List Host)
 
-/-- `if next { r.host = r.qp.Next() }; if r.host == nil {…} else { err := Send(…) … }` —
-with `next` the loop walks on over hosts whose Send fails; without it the same failing Send is
-repeated forever (`spin`). -/
+def pickNext (down : Host → Bool) (plan : List Host) : Pick :=
+  match skipDown down plan with
+  | (none, _) => .noHost
+  | (some h, rest) => .host h rest
+
+/-- `for !r.done { if next { r.host = r.qp.Next() }; if r.host == nil {…} else { err := Send(…);
+if err == nil { break } else { next = true } } }` — the loop walks on over hosts whose Send fails;
+a failing Send to the *same* host also moves on to the plan's next host. -/
 def pick (down : Nat → Host → Bool) (st : St) : Mode → Pick
-  | .next => match skipDown (down st.attempts.length) st.plan with
-    | (none, _) => .noHost
-    | (some h, rest) => .host h rest
+  | .next => pickNext (down st.attempts.length) st.plan
   | .same => match st.host with
     | none => .noHost
-    | some h => if down st.attempts.length h then .spin else .host h st.plan
+    | some h => if down st.attempts.length h then pickNext (down st.attempts.length) st.plan else .host h st.plan
 
 /-- the request's life from one `executeInternal(mode)` on; structural recursion on the script
 (one outcome per attempt that reaches a backend) -/
@@ -113,7 +115,6 @@ def go (down : Nat → Host → Bool) : List Outcome → Mode → St → St
     if st.done then st else
     match pick down st mode with
     | .noHost => { st with plan := [], host := none, done := true, reply := some .noMoreHosts }
-    | .spin => { st with diverged := true }
     | .host h plan =>
       let n := st.attempts.length
       let st := { st with plan := plan, host := some h, attempts := st.attempts ++ [h] }
